@@ -547,9 +547,189 @@ func rulesC04(w *World, r *Report) {
 		}
 	}
 	r.floor("C04.R4 Append sites in container readers", nA, 2)
+	w.ruleHolderChange(r, "C04.R4 grown slices are re-announced to their holder")
+	w.ruleRefBinding(r, "C04.R5 references keep identity")
 }
 
 func stripHex(s string) string { return s }
+
+// ruleHolderChange: (*_refHolder).change records the new slice on every path.
+// Exception (one symbol, one reason): a path guarded by a true CanAddr() test
+// is dead, because the values the decoder hands to change come from
+// reflect.MakeSlice / reflect.Append / reflect.ValueOf and are never addressable.
+func (w *World) ruleHolderChange(r *Report, rule string) {
+	fn := w.fn("(*_refHolder).change")
+	if fn == nil {
+		r.undecided(rule, "(*_refHolder).change", "-", "anchor not found")
+		return
+	}
+	storeBlock := map[*ssa.BasicBlock]bool{}
+	for _, b := range fn.Blocks {
+		for _, in := range b.Instrs {
+			if st, ok := in.(*ssa.Store); ok {
+				if fa, ok := st.Addr.(*ssa.FieldAddr); ok && typeStr(st.Val.Type()) == "reflect.Value" {
+					if _, isParam := st.Val.(*ssa.Parameter); isParam {
+						_ = fa
+						storeBlock[b] = true
+					}
+				}
+			}
+		}
+	}
+	ok := len(storeBlock) > 0
+	fact := "the new slice value is stored on every live path"
+	seen := map[[2]int]bool{}
+	var walk func(b *ssa.BasicBlock, dead bool)
+	walk = func(b *ssa.BasicBlock, dead bool) {
+		k := [2]int{b.Index, 0}
+		if dead {
+			k[1] = 1
+		}
+		if seen[k] || storeBlock[b] {
+			return
+		}
+		seen[k] = true
+		switch t := b.Instrs[len(b.Instrs)-1].(type) {
+		case *ssa.Return:
+			if !dead {
+				ok = false
+				fact = "a return at " + w.instrPos(t) + " is reachable without recording the new slice (and not behind a CanAddr() test): after an append that kept the backing array the holder keeps the old, shorter slice"
+			}
+		case *ssa.If:
+			isCanAddr := false
+			if c, isC := t.Cond.(*ssa.Call); isC && c.Call.StaticCallee() != nil && qualifiedFnName(c.Call.StaticCallee()) == "(reflect.Value).CanAddr" {
+				isCanAddr = true
+			}
+			walk(b.Succs[0], dead || isCanAddr)
+			walk(b.Succs[1], dead)
+		default:
+			for _, s2 := range b.Succs {
+				walk(s2, dead)
+			}
+		}
+	}
+	if ok {
+		walk(fn.Blocks[0], false)
+	} else {
+		fact = "no store of the parameter into the holder found"
+	}
+	r.add(rule, "(*_refHolder).change · records the new slice on every live path", w.pos(fn.Pos()), ok, fact)
+}
+
+// ruleRefBinding (C04.R5): identity of referenced containers.
+//  (a) ConvertSliceValueType unpacks a pointer element only when the
+//      destination element kind is not a pointer (otherwise SetValue re-packs a
+//      COPY and the element loses its identity);
+//  (b) SetSlice queues a reference on a holder only while the list is still
+//      being read; both list readers mark the holder completed before returning it.
+func (w *World) ruleRefBinding(r *Report, rule string) {
+	cs := w.fn("ConvertSliceValueType")
+	if cs == nil {
+		r.undecided(rule, "ConvertSliceValueType", "-", "anchor not found")
+	} else {
+		f := w.flow(cs)
+		n := 0
+		for _, site := range w.callSitesIn(cs) {
+			switch site.callee {
+			case "UnpackPtrValue", "UnpackPtr", "RawValue":
+			default:
+				continue
+			}
+			n++
+			// the facts at the call must exclude "destination element kind == Ptr"
+			env := f.At(site.call.Block())
+			okG := false
+			// the destination element kind is Kind(Elem(destTyp)) for the reflect.Type parameter
+			elemKind := ""
+			for _, p := range cs.Params {
+				if typeStr(p.Type()) == "reflect.Type" {
+					elemKind = "pure:(reflect.Type).Kind(pure:(reflect.Type).Elem(<p:" + p.Name() + ">))"
+				}
+			}
+			for k, v := range env {
+				if k == "("+elemKind+" == 22)" && v.Equal(single(0)) {
+					okG = true
+				}
+				if k == elemKind && !v.Contains(22) {
+					okG = true
+				}
+			}
+			r.add(rule, fmt.Sprintf("ConvertSliceValueType · %s", site.key()), w.instrPos(site.call), okG,
+				map[bool]string{true: "pointer elements are unpacked only when the destination element kind is not Ptr", false: "a pointer element is unpacked also for a []*T destination: SetValue re-packs a copy, so the element is no longer the object other references lead to"}[okG])
+		}
+		if n == 0 {
+			r.add(rule, "ConvertSliceValueType · pointer elements", w.pos(cs.Pos()), true, "no pointer unpacking in the element conversion")
+		}
+	}
+	ss := w.fn("SetSlice")
+	if ss == nil {
+		r.undecided(rule, "SetSlice", "-", "anchor not found")
+		return
+	}
+	// (b) the add() call in SetSlice is on the not-completed edge
+	n := 0
+	for _, site := range w.callSitesIn(ss) {
+		if site.callee != "(*_refHolder).add" {
+			continue
+		}
+		n++
+		okC := false
+		for _, b := range ss.Blocks {
+			iff, isIf := b.Instrs[len(b.Instrs)-1].(*ssa.If)
+			if !isIf {
+				continue
+			}
+			if ld, isLd := iff.Cond.(*ssa.UnOp); isLd && ld.Op == token.MUL {
+				if fa, isFA := ld.X.(*ssa.FieldAddr); isFA && typeStr(ld.Type()) == "bool" && strings.HasSuffix(typeStr(fa.X.Type()), "_refHolder") {
+					if b.Succs[1].Dominates(site.call.Block()) {
+						okC = true
+					}
+				}
+			}
+		}
+		r.add(rule, "SetSlice · a reference is queued only on an unfinished list", w.instrPos(site.call), okC,
+			map[bool]string{true: "holder.add is reached only when the holder is not yet completed; a completed list is bound at once", false: "a reference to a list that was already read completely is queued on a holder nobody will notify: the destination stays empty (the same slice in two sibling fields)"}[okC])
+	}
+	r.floor(rule+" (queued references in SetSlice)", n, 1)
+	for _, name := range []string{"(*Decoder).readTypedList", "(*Decoder).readUntypedList"} {
+		fn := w.fn(name)
+		if fn == nil {
+			r.undecided(rule, name, "-", "anchor not found")
+			continue
+		}
+		// every return of the holder is dominated by a store of true into its bool field
+		var marks []*ssa.BasicBlock
+		for _, b := range fn.Blocks {
+			for _, in := range b.Instrs {
+				if st, ok := in.(*ssa.Store); ok {
+					if fa, ok := st.Addr.(*ssa.FieldAddr); ok && strings.HasSuffix(typeStr(fa.X.Type()), "_refHolder") {
+						if k, isC := st.Val.(*ssa.Const); isC && k.Value != nil && k.Value.ExactString() == "true" {
+							marks = append(marks, b)
+						}
+					}
+				}
+			}
+		}
+		okM := true
+		idx := errIndex(fn.Signature)
+		for _, b := range fn.Blocks {
+			ret, isRet := b.Instrs[len(b.Instrs)-1].(*ssa.Return)
+			if !isRet || isNilConst(ret.Results[0]) || !isNilConst(ret.Results[idx]) {
+				continue
+			}
+			dom := false
+			for _, m := range marks {
+				if m.Dominates(b) {
+					dom = true
+				}
+			}
+			if !dom {
+				okM = false
+			}
+		}
+		r.add(rule, name+" · marks the holder completed before returning it", w.pos(fn.Pos()), okM && len(marks) > 0, fmt.Sprintf("%d completion mark(s) dominating every holder-returning return=%v", len(marks), okM))
+	}
+}
 
 // ruleRefKeyPins: the ref-table key holds addresses as pointers.
 func (w *World) ruleRefKeyPins(r *Report, rule string) {
